@@ -10,6 +10,17 @@ open RawPanelVerif.C12
 #print axioms ack_frame_is_binary_both
 #print axioms silence_rdy_map_are_ascii_both
 #print axioms client_any_other_text_is_ascii
+#print axioms timeouts_are_two_seconds
+#print axioms late_is_silence
+#print axioms late_is_silence_both
+#print axioms ack_before_timeout_is_binary
+#print axioms entry_points_see_same_reply
+#print axioms entry_points_agree_before_min_timeout
+#print axioms between_timeouts_disagree
 #print axioms errormsg_extracted
+#print axioms client_text_verdict
 #print axioms errormsg_passed_to_onconnect
+#print axioms errormsg_passed_to_onconnect_unterminated
+#print axioms errormsg_absent
+#print axioms split_ack_disagree
 #print axioms entry_points_differ_example
